@@ -73,9 +73,9 @@ def main():
         subprocess.run([os.path.join(VERIF, "run.sh"), "setup"], check=True)
         props = [a.prop]
         if a.all_props:
-            props = subprocess.run([os.path.join(VERIF, "bin", "yverif"), "list"], capture_output=True, text=True).stdout.split()
+            props = subprocess.run([os.environ.get("YVERIF_BIN", os.path.join(VERIF, "bin", "yverif")), "list"], capture_output=True, text=True).stdout.split()
         res["checks"] = {}
-        r = subprocess.run([os.path.join(VERIF, "bin", "yverif"), "checkall", "-repo", mut, "-verif", vdir, "-props", ",".join(props)], env=ENV, capture_output=True, text=True)
+        r = subprocess.run([os.environ.get("YVERIF_BIN", os.path.join(VERIF, "bin", "yverif")), "checkall", "-repo", mut, "-verif", vdir, "-props", ",".join(props)], env=ENV, capture_output=True, text=True)
         cur = ""
         for p in props:
             res["checks"][p] = {"rc": 0, "reports": []}
